@@ -216,7 +216,23 @@ def check_read_conf(ctx, rng):
                     env[k] = ''         # an override that is present but empty is still the override (e.g. export VAR=$UNSET)
                     ctx.event('environment-override-present-but-empty')
                 os.environ[f'NDN_CLIENT_{k.upper()}'] = env[k]
-            exp, conf_path = ref_resolve(env, files, defaults, default_locs, os.path.exists)
+            # which of the forwarder's two well-known local sockets exist (Linux: the current /run/nfd/nfd.sock, the one of old
+            # forwarders /run/nfd.sock): the platform default is the current one unless ONLY the old one is there.  The harness
+            # answers os.path.exists for exactly these two paths (they lie outside the sandbox) and nothing else.
+            real_exists = os.path.exists
+            if sys.platform.startswith('linux'):
+                sock_state = [(False, False), (True, False), (False, True), (True, True)][(ci // 2) % 4]
+                defaults = dict(defaults, transport='unix:///run/nfd.sock' if (not sock_state[0] and sock_state[1]) else 'unix:///run/nfd/nfd.sock')
+                ctx.event('forwarder-sockets-present-%d%d' % sock_state)
+
+                def fake_exists(p_, st=sock_state):
+                    if p_ == '/run/nfd/nfd.sock':
+                        return st[0]
+                    if p_ == '/run/nfd.sock':
+                        return st[1]
+                    return real_exists(p_)
+                os.path.exists = fake_exists
+            exp, conf_path = ref_resolve(env, files, defaults, default_locs, real_exists)
             w = {'env': env, 'existing_files': [os.path.relpath(c, root) for i, c in enumerate(cands) if i in layout], 'file_keys': fkeys,
                  'location': loc_kind, 'style': style, 'file_text': files[layout[0]][1] if layout else None}
             del OPEN_LOG[:]
@@ -225,9 +241,11 @@ def check_read_conf(ctx, rng):
                 got = client_conf.read_client_conf()
             except Exception as e:   # noqa
                 _hook_on[0] = False
+                os.path.exists = real_exists
                 ctx.report(f'read-client-conf-raises:{type(e).__name__}@{raising_site(e)[0]}', f'{e!r}', w)
                 continue
             _hook_on[0] = False
+            os.path.exists = real_exists
             real_cands = {os.path.realpath(c_) for c_ in all_user_cands + sys_cands if os.path.lexists(c_)}
             opened = [os.path.realpath(p) for p in OPEN_LOG if os.path.realpath(p) in real_cands]      # whichever spelling of the path was opened
             ctx.case((envs, layout, fkeys, loc_kind, style), nontrivial=bool(envs or (layout and fkeys)),
@@ -245,6 +263,8 @@ def check_read_conf(ctx, rng):
                 ctx.event('audit-open-checked')
     finally:
         type(plat).client_conf_paths = orig_paths
+        if 'real_exists' in dir():
+            os.path.exists = real_exists
         os.chdir(old_cwd)
         os.environ.clear()
         os.environ.update(old_env)
@@ -355,5 +375,9 @@ def run(ctx):
     check_keychain(ctx, rng)
     for k in ('environment-override-present-but-empty', 'candidate-file-is-a-symlink', 'home-0', 'home-1', 'home-2', 'configuration', 'audit-open-checked', 'face-uri-supported', 'face-uri-unsupported', 'keychain', 'store-scheme-refused'):
         ctx.need_event(k)
-    ctx.assumptions = ['the candidate file list of the platform is redirected into the sandbox (harness wrapper); the layering logic is the library\'s',
+    if sys.platform.startswith('linux'):
+        ctx.need_event('forwarder-sockets-present-01')
+        ctx.need_event('forwarder-sockets-present-11')
+    ctx.assumptions = ['Linux platform default transport = the forwarder\'s well-known socket /run/nfd/nfd.sock, or /run/nfd.sock when only that one exists (the harness answers os.path.exists for these two paths)',
+                       'the candidate file list of the platform is redirected into the sandbox (harness wrapper); the layering logic is the library\'s',
                        'platform default store locations exist in the sandbox HOME', 'values with %, more than one colon, or duplicate keys are outside the generated domain']
